@@ -4,6 +4,7 @@ Call level: generated @pedantic functions with a missing / bare annotation at ea
 import json
 import _checker_common as K
 import _call_common as C
+import _call_reentrant as R
 
 RULE = ('exhaustive: the 17 bare generics (list, dict, set, frozenset, tuple, type, typing.List, Dict, Set, FrozenSet, Tuple, Type, Callable, '
         'Iterable, Sequence, Union, Optional) x 40 probe values (None, empty and non-empty instances of every origin, subclasses, classes, '
@@ -43,6 +44,7 @@ def cases(rng, tier):
     out += C.build_cases(rng, n, calls_per=3, profile='incomplete', style='kw', tag='c06a')
     out += C.build_cases(rng, n // 4, calls_per=2, profile='incomplete', style=None, tag='c06b')
     out += C.scenario_cases(rng, n // 8, tag='c06sc')
+    out += R.reentrant_cases(rng, n // 6, tag='c06re')      # overlapping calls (SIG_TEMPLATES has incomplete signatures for the inner callable)
     return out
 
 
@@ -53,7 +55,7 @@ def search(rng, tier, near):
 def run_impl(cases):
     out = []
     for c in cases:
-        out.extend(C.run_impl_calls([c]) if c['m'] == 'calllayer' else K.run_impl_checker([c]))
+        out.extend(R.run_impl([c]) if c['m'] == 'calllayer' else K.run_impl_checker([c]))
     return out
 
 
